@@ -27,7 +27,7 @@ pub fn run(ctx: &Ctx) -> i32 {
     let prop: &'static str = if ctx.prop == "C13" { "C13" } else { "C17" };
     let engine = ReqEngine { prop };
     if let Some(path) = &ctx.replay {
-        return match read_replay(path).and_then(|rf| if rf.engine == "poolsim" { replay_one(ctx, &crate::engines::poolsim::PoolEngine { prop: "C17", nontrivial: |_| true, phases: crate::engines::poolsim::Phases { drain: true, probe: true } }, &rf) } else if rf.engine == "tlsstack" { crate::props::stack::replay(ctx, "C13", &rf) } else if rf.engine == "netsim" { replay_one(ctx, &crate::props::net::NetEngine { prop: "C13" }, &rf) } else if rf.engine == "tlswire" { replay_one(ctx, &TlsPanics, &rf) } else { replay_one(ctx, &engine, &rf) }) {
+        return match read_replay(path).and_then(|rf| if rf.engine == "poolsim" { replay_one(ctx, &crate::engines::poolsim::PoolEngine { prop: "C17", nontrivial: |_| true, phases: crate::engines::poolsim::Phases { drain: true, probe: true } }, &rf) } else if rf.engine == "tlsstack" { crate::props::stack::replay(ctx, "C13", &rf) } else if rf.engine == "netsim" { replay_one(ctx, &crate::props::net::NetEngine { prop: "C13" }, &rf) } else if rf.engine == "tlswire" { replay_one(ctx, &TlsPanics, &rf) } else if rf.engine == "tcpuri" { replay_one(ctx, &crate::engines::reqgrammar::TcpUriEngine, &rf) } else { replay_one(ctx, &engine, &rf) }) {
             Ok(c) => c,
             Err(e) => {
                 eprintln!("replay failed: {e}");
@@ -53,6 +53,8 @@ pub fn run(ctx: &Ctx) -> i32 {
             let wt = ps::Weights { dial_fail: 8, hs_fail: 6, cancel: 6, ..ps::GENERIC };
             total.merge(run_generated(ctx, &pool_engine, "poolsim-failing-attempts", move || ps::case_strategy(wt, 40, ps::cfg_any_strategy()), ctx.cases(40_000, 1_500_000), 2000));
         }
+        // the real TCP transports (and the default TCP client) handed the grammar's URIs and degenerate ones
+        total.merge(run_generated(ctx, &crate::engines::reqgrammar::TcpUriEngine, "tcp-transport-uri-handling", crate::engines::reqgrammar::tcpuri_strategy, ctx.cases(6_000, 200_000), 200));
         // TLS transport leg: the tlswire cases, only panics count here
         total.merge(run_generated(ctx, &TlsPanics, "tls-transport", crate::engines::tlswire::strategy, ctx.cases(20_000, 600_000), 300));
     }
